@@ -786,6 +786,12 @@ def tamper_ops():
         'addr-supernet': ('widen', first(lambda s: s._replace(lo=s.lo & ~0xFFFF, hi=s.lo | 0xFFFF))),
         'addr-all': ('widen', first(lambda s: s._replace(lo=V4ALL[0], hi=V4ALL[1]))),
         'addr-shift': ('widen', first(lambda s: s._replace(lo=s.lo + 0x100, hi=s.hi + 0x100))),
+        # ranges another implementation may narrow an any-port offer to: they start at 0 or end at 65535 without being "any"
+        'port-low-range': ('widen-if-port', first(lambda s: s._replace(plo=0, phi=999))),
+        'port-high-range': ('widen-if-port', first(lambda s: s._replace(plo=24, phi=65535))),
+        'all:port-low-range': ('widen-if-port', lambda l: [s._replace(plo=0, phi=999) for s in l]),
+        'all:port-high-range': ('widen-if-port', lambda l: [s._replace(plo=24, phi=65535) for s in l]),
+        'all:port-subrange': ('widen-if-port', lambda l: [s._replace(plo=22, phi=24) for s in l]),
         'port-any': ('widen-if-port', first(lambda s: s._replace(plo=0, phi=65535))),
         'port-hi+1': ('widen-if-port', first(lambda s: s._replace(phi=min(65535, s.phi + 1)))),
         'port-lo-1': ('widen-if-port', first(lambda s: s._replace(plo=max(0, s.plo - 1)))),
@@ -801,15 +807,22 @@ def tamper_cases():
     out = []
     for exch in ('auth', 'new', 'rekey'):
         for mode in ('transport', 'tunnel'):
-            for op in tamper_ops():
+            for op in [o for o in tamper_ops() if not o.startswith('all:')]:
                 for side in ('tsi', 'tsr', 'both'):
                     out.append((exch, mode, 'res', op, side, False))
             out.append((exch, mode, 'res', 'identity', 'tsi', True))      # mode flipped, selectors genuine
             out.append((exch, mode, 'res', 'narrow-host', 'both', True))
     for mode in ('transport', 'tunnel'):
-        for op in tamper_ops():
+        for op in [o for o in tamper_ops() if not o.startswith('all:')]:
             for side in ('tsi', 'tsr', 'both'):
                 out.append(('rekey', mode, 'req', op, side, False))
+    for mode in ('transport', 'tunnel'):
+        out.append(('stale', mode, 'res', 'other-childs-selectors', 'both', False))
+    # an initiator that is not pyikev2 proposes port ranges inside the responder's any-port policy
+    for exch in ('auth', 'new'):
+        for mode in ('transport', 'tunnel'):
+            for op in ('identity', 'all:port-low-range', 'all:port-high-range', 'all:port-subrange'):
+                out.append((exch, mode, 'req', op, 'tsi', False))
     return out
 
 
@@ -857,12 +870,62 @@ def rewrite(data, crypto, op, side, flip_mode):
     return bytes(m.to_bytes()), changed
 
 
+def stale_case(mode):
+    """history + forged reply: the CHILD_SA of the first entry was rekeyed by both ends at once (both refused, it lives on);
+    later a CHILD_SA is requested for the SECOND entry and the reply carries the selectors of the first one - not drawn
+    from what was offered, so nothing may be installed"""
+    e1 = ('10.1.0.0/24', '10.2.0.0/24', 0, 23, 'tcp', mode)
+    e2 = ('10.1.0.0/24', '10.2.0.0/24', 0, 53, 'udp', mode)
+    a1, b1 = entry_dicts(e1, e1)
+    a2, b2 = entry_dicts(e2, e2)
+    confs = S.base_confs(a_entry=a1, b_entry=b1)
+    confs['A']['conn_ab']['protect'].append(S.entry(5, **a2))
+    confs['B']['conn_ba']['protect'].append(S.entry(6, **b2))
+    w = S.new_world(confs)
+    A, B = w.endpoints['A'], w.endpoints['B']
+    label = 'stale-rekey,%s,other-childs-selectors' % mode
+    doc = dict(part='tamper', case=['stale', mode, 'res', 'other-childs-selectors', 'both', False])
+    w.step(acquire_event(e1, 'flow'))
+    w.deliver_all()
+    ca, cb = A.controller.ike_sas[0].child_sas[0], B.controller.ike_sas[0].child_sas[0]
+    w.step(('expire', 'A', bytes(ca.inbound_spi), False))
+    w.step(('expire', 'B', bytes(cb.inbound_spi), False))
+    w.deliver_all()
+    if children(A) != 1 or children(B) != 1 or not alive(w):
+        raise HarnessError('simultaneous rekey did not leave one CHILD_SA on each side (%d / %d)' % (children(A), children(B)))
+    w.step(acquire_event(e2, 'flow', index=5))
+    if len(w.net) != 1:
+        raise HarnessError('no CREATE_CHILD_SA request for the second entry')
+    w.step(('deliver', w.net[0].id))
+    genuine = w.net[0]
+    m = message.Message.parse(genuine.data, crypto=B.controller.ike_sas[0].my_crypto)
+    first = A.controller.ike_sas[0].child_sas[0]
+    for p in m.encrypted_payloads:
+        if isinstance(p, message.PayloadTS):
+            p.traffic_selectors = [first.tsi if int(p.type) == P_TSI else first.tsr]
+    w.step(('drop', genuine.id))
+    n_log, n_child = len(A.kernel.log), children(A)
+    w.step(('inject', 'A', bytes(m.to_bytes()), S.IP_B))
+    viol = []
+    if not A.alive:
+        return label, 'initiator-died', viol
+    got = newsas(A, n_log)
+    if got or children(A) > n_child:
+        viol.append(('tamper-res:%s:installs-outside-the-offer' % label,
+                     'after a refused (simultaneous) rekey of the first CHILD_SA, the reply to a request for %s carrying the '
+                     'selectors of the first CHILD_SA (%s) was accepted: %d NEWSA, %d more CHILD_SA' % (
+                         e2[3:5], e1[3:5], len(got), children(A) - n_child), doc))
+    return label, 'rejected' if not got else 'INSTALLED', viol
+
+
 def children(ep):
     return sum(len(s.child_sas) for s in ep.controller.ike_sas)
 
 
 def tamper_run(case):
     exch, mode, what, op, side, flip = case
+    if exch == 'stale':
+        return stale_case(mode)
     w = tamper_world(exch, mode)
     A, B = w.endpoints['A'], w.endpoints['B']
     label = '%s-%s,%s,%s@%s%s' % (exch, what, mode, op, side, ',mode-flip' if flip else '')
@@ -919,6 +982,28 @@ def tamper_run(case):
                 viol.append(('tamper-res:%s:installed-other-mode' % label,
                              'initiator installed mode %d, requested %d' % (req['mode'], expect_mode), doc))
         return label, outcome, viol
+    if exch != 'rekey':
+        # a request whose TSi ports were narrowed by the (foreign) initiator: whatever the responder installs lies inside
+        # what was proposed (and inside its policy)
+        genuine = w.net[0]
+        data, changed = rewrite(genuine.data, A.controller.ike_sas[0].my_crypto, op, side, flip)
+        proposed = R.flows(changed['tsi'][1], changed['tsr'][1], A_SIDE, B_SIDE)
+        w.step(('drop', genuine.id))
+        n_log = len(B.kernel.log)
+        w.step(('inject', 'B', data, S.IP_A))
+        if not B.alive:
+            return label, 'responder-died', viol
+        got = newsas(B, n_log)
+        for req in got:
+            f = sa_flows(req)
+            if f is None or not f <= proposed:
+                viol.append(('tamper-req:%s:responder-installs-outside-proposed' % label,
+                             'responder installed %r, which covers %r outside the proposed TSi=%s TSr=%s' % (
+                                 sa_key(req), sorted((f or set()) - proposed)[:2], [show(x) for x in changed['tsi'][1]],
+                                 [show(x) for x in changed['tsr'][1]]), doc))
+        if op == 'identity' and len(got) != 2:
+            raise HarnessError('the re-protected genuine request was not accepted (%s)' % label)
+        return label, 'request-%s' % ('installed' if got else 'refused'), viol
     # rekey request with altered selectors -> responder must refuse (selectors of a rekey equal the replaced SA's)
     genuine = w.net[0]
     g_tsi, g_tsr, _ = wire_ts(genuine)
